@@ -10,6 +10,8 @@ R10.setrot  setRotation(from, to) is a unit quaternion carrying from/|from| onto
             exactly-opposite paths; rotationMatrix(from,to) = setRotation(from,to).toMatrix44()
 R10.squad   intermediate / squad / spline have the value graph of their documented definitions (Watt & Watt p.366) written with
             Imath's own inverse, product, log, exp, slerp (opaque callees): argument order and the 2t(1-t) blend included
+R10.explog  exp(log q) == q for unit q, |r| < 1 (cos(acos a) = a, sin(acos a) = sqrt(1-a^2), ...)
+R10.sinc    sinx_over_x(x) = sin(x)/x for every |x| >= 1 of either sign (interval evaluation of the guard), 1 on the small branch
 R10.slerp   slerpShortestArc negates q2 exactly when q1.q2 < 0; slerp(t=0) = normalized(q1), slerp(t=1) = normalized(q2)
 """
 from fractions import Fraction
